@@ -192,6 +192,16 @@ type JSONArtifact struct {
 
 // ApplyJSON applies one mutation of Inputs.tla to node t.
 func (a *JSONArtifact) ApplyJSON(t *JNode, op, arg string, rng *rand.Rand, inner InnerDERFunc) error {
+	// detached by an earlier mutation of the program: nothing to act on
+	for n := t; n != nil; n = n.Parent {
+		if n.Parent == nil {
+			if n != a.Root {
+				return ErrNA
+			}
+		} else if n.index() < 0 {
+			return ErrNA
+		}
+	}
 	switch op {
 	case "Truncate", "ByteNoise":
 		a.Posts = append(a.Posts, Post{Op: op, Arg: arg, Spans: func() (int, int, int, bool, bool) {
